@@ -75,7 +75,7 @@ theorem wfL_strings : ∀ (ns : List String), Ty.wfL (ns.map fun _ => Ty.string)
   | [] => rfl
   | _ :: ns => by simp [Ty.wfL, Ty.wf, wfL_strings ns]
 
-theorem keysType_wf {w : Value} (hwf : Ty.wf w.ty = true) {t : Ty} (h : keysType [w] = .ok t) : Ty.wf t = true := by
+theorem keysType_wf {w : Value} {t : Ty} (h : keysType [w] = .ok t) : Ty.wf t = true := by
   simp only [keysType] at h
   split at h
   · cases h; rfl
